@@ -250,6 +250,8 @@ theorem handlePieceWriteDone_comp (m : M) (w : WriteJob) (e : Bool) (h : CompInv
   dsimp only
   split
   · exact pwdBan_comp _ _ h0
+  split
+  · exact h0
   · split
     · simp only [onSt_fst]; exact stop_comp _ _ h0
     · have h1 : CompInv (pwdDone (pwdReset m w) w).1 := by comp_frame h0
@@ -266,6 +268,7 @@ theorem writerRun_comp (m : M) (w : WriteJob) (h : CompInv m.1) : CompInv (write
   all_goals first
     | exact handlePieceWriteDone_comp _ _ _ h
     | exact handlePieceWriteDone_comp _ _ _ (h.of_frame rfl rfl rfl rfl rfl rfl rfl rfl)
+    | exact h.of_frame rfl rfl rfl rfl rfl rfl rfl rfl
 
 /-! ### allocation, verification -/
 
@@ -345,12 +348,19 @@ theorem handleAllocationDone_comp (m : M) (ex mi : Bool) (h : CompInv m.1) :
       exact ⟨hcc, hall, fun _ _ _ hv => by simp at hv⟩
 
 theorem allocatorRun_comp (m : M) (h : CompInv m.1) : CompInv (allocatorRun m).1 := by
-  unfold allocatorRun
-  dsimp only
+  rw [allocatorRun_eq]
   split
-  · simp only [onSt_fst]
-    exact stop_comp' _ _ h.cc h.all
-  · exact handleAllocationDone_comp _ _ _ (h.of_frame rfl rfl rfl rfl rfl rfl rfl rfl)
+  · unfold allocFail
+    simp only [onSt_fst]
+    refine stop_comp' _ _ (by simpa using h.cc) ?_
+    intro hc
+    unfold hadForget
+    simp only [onSt_fst]
+    split
+    · exact Or.inl rfl
+    · have := h.all (by simpa using hc)
+      simpa using this
+  · exact handleAllocationDone_comp _ _ _ (h.of_frame (by simp) (by simp) (by simp) (by simp) (by simp) (by simp) (by simp) (by simp))
 
 theorem hvdPre_bf (m : M) : (hvdPre m).1.bf = some m.1.diskOK := by
   simp [hvdPre]
@@ -394,6 +404,7 @@ theorem runWorkers_comp (fuel : Nat) (m : M) (h : CompInv m.1) : CompInv (runWor
            | exact handleStopped_comp m h
            | exact allocatorRun_comp m h
            | exact handleVerificationDone_comp m h
+           | exact handlePieceWriteDone_comp m _ _ h
            | exact writerRun_comp m _ h)
 
 theorem mutate_comp (s : St) (f : Option Nat) (how : Mut) (h : CompInv s) : CompInv (mutate s f how) := by
